@@ -1,3 +1,3 @@
 """Which units exist and which properties are claimed."""
-UNITS = ['u1_vlq']
-PROPERTIES = ['C11', 'C06']
+UNITS = ['u1_vlq', 'u2_lookup']
+PROPERTIES = ['C04', 'C06', 'C07', 'C11']
